@@ -1170,6 +1170,27 @@ where
     }
 }""", new="""    }
 }"""),
+    dict(id="c10-clean-return-keeps-the-key", prop="C10", file="src/client.rs", expect="C10-R3",
+         what="handle returns after a completed clean-up without release() (D69 again)",
+         old="""                                self.release();
+
+                                return Err(err);""", new="""                                return Err(err);"""),
+    dict(id="c08-parse-count-signed", prop="C08", file="src/messages.rs", expect="C08-R1",
+         what="the Parse decoder loops over the parameter count as a signed number (D70 again)",
+         old="""        for _ in 0..num_params as u16 {""", new="""        for _ in 0..num_params {"""),
+    dict(id="c14-removed-pool-keeps-its-gate-shut", prop="C14", file="src/pool.rs", expect="C14-R2",
+         what="from_config no longer opens the gate of pools that left the map (D71 again)",
+         old="""            if !new_pools.contains_key(&identifier) {
+                pool.resume();
+            }""", new="""            if !new_pools.contains_key(&identifier) {
+                debug!("pool {} removed", identifier);
+            }"""),
+    dict(id="c14-every-previous-pool-resumed", prop="C14", file="src/pool.rs", expect="C14-R2",
+         what="from_config resumes every pool of the previous map, kept ones included (a reload lifts every PAUSE)",
+         old="""            if !new_pools.contains_key(&identifier) {
+                pool.resume();
+            }""", new="""            let _ = &identifier;
+            pool.resume();"""),
     # ------------------------------------------------------------------ C17
     dict(id="c17-shutdown-checked-in-transaction", prop="C17", file="src/client.rs", expect="C17-R1",
          what="the transaction loop also reacts to the shutdown broadcast",
